@@ -26,8 +26,10 @@ FIRST = {
     "C01-7": "no-failing-input-found", "C01-8": "missed", "C08-7": "missed", "C13-8": "missed", "C19-8": "missed",
     "C02-10": "missed", "C03-10": "missed", "C04-10": "missed", "C06-10": "missed", "C08-10": "missed",
     "C09-9": "missed", "C10-9": "missed by C10 (caught by C19)", "C11-10": "missed", "C12-10": "missed", "C14-10": "missed",
+    "C01-11": "no-failing-input-found", "C01-12": "no-failing-input-found", "C03-11": "no-failing-input-found",
+    "C08-11": "missed", "C09-12": "missed", "C11-11": "missed", "C12-11": "missed", "C12-12": "missed", "C14-12": "missed",
 }
-ALSO = {"C03-1": "C08", "C13-2": "C11", "C01-6": "C08", "C16-7": "C18", "C03-8": "C01", "C10-9": "C19"}
+ALSO = {"C03-1": "C08", "C13-2": "C11", "C01-6": "C08", "C16-7": "C18", "C03-8": "C01", "C10-9": "C19", "C03-11": "C08"}
 
 
 def run(seed, prop=None):
